@@ -37,6 +37,8 @@ def run(ctx):
     vlib.mc_check(ctx, "StorageProto", "StorageProto_negS8.cfg", expect_violation="OrphanIsF4Class", timeout=120, workers=2)
     vlib.mc_check(ctx, "StorageProto", "StorageProto_negInv.cfg", expect_violation="NeverDeletesBuilding", timeout=120, workers=2)
     vlib.mc_check(ctx, "StorageProto", "StorageProto_negS11.cfg", expect_violation="NeverDeletesNeeded", timeout=300, workers=4)
+    # the living set forgets the older metas a running merge holds (seeded C10-s19): the merge cannot open its sources
+    vlib.mc_check(ctx, "StorageProto", "StorageProto_negS19.cfg", expect_violation="MergeSourcesReadable", timeout=300, workers=4)
 
     ev = sc.record_histories(ctx, "fixed", sc.fixed_histories())
     ev += sc.record_random(ctx, "rand", 50 if ctx.quick else 500, 30, ctx.seed + 11)
@@ -62,6 +64,22 @@ def run(ctx):
     log(f"[R] GC forced while a worker / merge thread is parked after file creation #k: {realised}/{len(gruns)} realised, {n3} + {n4} accepted")
     if realised == 0:
         raise vlib.ToolError("the gated GC race was never realised")
+
+    # R: a merge parked BEFORE it opens its sources, which already have delete files, while a commit gives a
+    # source a newer delete file and collects: the older delete file belongs to the segment metas the merge
+    # holds (the living set is every live SegmentMeta, not the newest one per segment) - the merge must succeed
+    from props import c04
+    mp = ctx.path("merge_predeleted.ndjson")
+    vlib.run_bin("merge_driver", ["gated", "--seed", ctx.seed + 9, "--runs", 6 if ctx.quick else 60, "--only", "predeleted_delete_commit", "--out", mp], timeout=900)
+    mev = vlib.read_ndjson(mp)
+    mruns = c04.prep(mev)
+    mreal = sum(1 for e in mev if e.get("ev") == "schedule" and e.get("realised"))
+    n6 = tracecheck.validate_runs(ctx, mruns, "merge_predeleted", "MergeTrace", "MergeTrace.cfg", key=lambda r: json.dumps(r[0].get("tag")), timeout=300)
+    ctx.cov["traces_validated_against_impl"] += n6
+    ctx.cov["gated_merge_before_open_vs_gc"] = {"runs": len(mruns), "realised": mreal, "accepted": n6}
+    log(f"[R] merge parked before it opens sources that have delete files, while a commit rewrites one and collects: {mreal}/{len(mruns)} realised, {n6} accepted")
+    if mreal == 0:
+        raise vlib.ToolError("the gated merge-before-open schedule was never realised")
 
     # R: a reader of a second Index instance parked in the middle of loading (after it read meta.json /
     # before its first open of a segment file) while the writer commits, merges and collects:
